@@ -12,11 +12,18 @@ static size_t g_maxSize;
 static uint8_t* g_trainBuf; static size_t g_trainSizes[600];
 
 /* ---- assembler of structurally valid but unusual dictionaries (serialised with the tree's own table writers; validity = both loaders accept) */
+static int g_holeAt = -1;    /* when >= 0: every symbol present except this one (boundary bait for "is the table complete up to symbol k" logic) */
 static size_t rand_ncount(vrng* r, short* nc, unsigned maxSym, unsigned tableLog)
 {   /* normalised counts summing to 1<<tableLog; zero ("absent") and -1 ("less than one") entries allowed */
     int total = 1 << tableLog; unsigned present = 0;
     for (unsigned s = 0; s <= maxSym; s++) nc[s] = 0;
-    for (unsigned s = 0; s <= maxSym && total > 0; s++) { if (vr_chance(r, 1, 3) && present) continue; nc[s] = vr_chance(r, 1, 3) ? -1 : 1; total -= 1; present++; }
+    if (g_holeAt >= 0 && (unsigned)g_holeAt <= maxSym && (1u << tableLog) > maxSym + 2) {
+        for (unsigned s = 0; s <= maxSym; s++) if ((int)s != g_holeAt) { nc[s] = vr_chance(r, 1, 4) ? -1 : 1; total--; present++; }
+        while (total > 0) { unsigned s = vr_u(r, maxSym + 1); if (nc[s] <= 0) { int any = 0; for (unsigned q = 0; q <= maxSym; q++) if (nc[q] > 0) any = 1; if (any) continue; nc[s] = (short)(total + 1); total = 0; break; } int add = 1 + (int)vr_u(r, (uint32_t)total); nc[s] = (short)(nc[s] + add); total -= add; }
+        return 1;
+    }
+    int const zeroRate = (int)vr_u(r, 4);      /* 0: no absent symbol at all; else 1/4 .. 3/4 ... of the symbols may be absent */
+    for (unsigned s = 0; s <= maxSym && total > 0; s++) { if (zeroRate && vr_u(r, 8) < (uint32_t)zeroRate && present) continue; nc[s] = vr_chance(r, 1, 3) ? -1 : 1; total -= 1; present++; }
     if (!present) { nc[0] = 1; total -= 1; present = 1; }
     while (total > 0) { unsigned s = vr_u(r, maxSym + 1); if (nc[s] == 0 || nc[s] == -1) continue; int add = 1 + (int)vr_u(r, (uint32_t)total); nc[s] = (short)(nc[s] + add); total -= add; { int any = 0; for (unsigned q = 0; q <= maxSym; q++) if (nc[q] > 0) any = 1; if (!any) { nc[0] = (short)(nc[0] == -1 ? total + 1 : nc[0] + total); total = 0; } } }
     {   int anyPos = 0; for (unsigned s = 0; s <= maxSym; s++) if (nc[s] > 0) anyPos = 1; if (!anyPos) return 0; }
@@ -38,8 +45,11 @@ static size_t build_dict(vrng* r, uint8_t* dst, size_t cap, const uint8_t* conte
         size_t const hl = HUF_buildCTable_wksp(ct, count, maxSym, maxBits, wk, sizeof wk); if (HUF_isError(hl)) return 0;
         size_t const hs = HUF_writeCTable_wksp(op, 400, ct, maxSym, (unsigned)hl, wk, sizeof wk); if (HUF_isError(hs)) return 0; op += hs;
     }
-    {   short nc[64]; unsigned const ofMax = vr_chance(r, 1, 2) ? 31 : 10 + vr_u(r, 21); unsigned const ofLog = 5 + vr_u(r, 4);
-        if (!rand_ncount(r, nc, ofMax, ofLog)) return 0; for (unsigned s = 0; s <= ofMax; s++) { if (nc[s] == 0) zeroOF = 1; if (nc[s] == -1) ltone = 1; }
+    {   short nc[64]; unsigned ofMax = vr_chance(r, 1, 2) ? 31 : 10 + vr_u(r, 21); unsigned ofLog = 5 + vr_u(r, 4);
+        /* one offset-code table in three has exactly one hole around the highest code the loader requires for this content size */
+        if (vr_chance(r, 1, 3)) { unsigned hb = 0; { size_t v = contentLen + (128u << 10); while (v >>= 1) hb++; } g_holeAt = (int)hb - 1 + (int)vr_u(r, 3); ofMax = V_MAX(ofMax, (unsigned)g_holeAt + 1); if (ofMax > 31) ofMax = 31; ofLog = 6 + vr_u(r, 3); }
+        { int const ok = (int)rand_ncount(r, nc, ofMax, ofLog); g_holeAt = -1; if (!ok) return 0; }
+        if (0) return 0; for (unsigned s = 0; s <= ofMax; s++) { if (nc[s] == 0) zeroOF = 1; if (nc[s] == -1) ltone = 1; }
         size_t const s1 = FSE_writeNCount(op, 200, nc, ofMax, ofLog); if (FSE_isError(s1)) return 0; op += s1;
         unsigned const mlMax = vr_chance(r, 1, 2) ? 52 : 20 + vr_u(r, 32); unsigned const mlLog = 5 + vr_u(r, 5);
         if (!rand_ncount(r, nc, mlMax, mlLog)) return 0; for (unsigned s = 0; s <= mlMax; s++) { if (nc[s] == 0) zeroML = 1; if (nc[s] == -1) ltone = 1; }
@@ -97,13 +107,18 @@ static void run_case(long idx)
     for (int rep = 0; rep < 3; rep++) {
         size_t n; uint8_t* x;
         switch (rep) { case 0: n = 1 + vr_u(&r, 3000); break; case 1: n = pick_size(&r, g_maxSize); break; default: n = (size_t)vr_range(&r, 100, 300000); }
+        int istyle = (int)vr_u(&r, 5); if (feat[0] && vr_chance(&r, 1, 2)) istyle = 4;
+        if (istyle == 4) n = (size_t)vr_range(&r, 120000, 140000) + (vr_chance(&r, 1, 3) ? 131072 : 0);
         x = (uint8_t*)malloc(n + 8);
-        switch (vr_u(&r, 4)) { case 0: for (size_t i = 0; i < n; i++) x[i] = dl ? dict[(dl - 1) - ((n - 1 - i) % dl)] : 0; break;                 /* replays the dictionary tail */
+        switch (istyle) {
+            case 4: { /* few sequences, one far match: incompressible bytes, then a chunk of dictionary content near the end of the (first) block:
+                       * its offset is about the block position + the distance to the dictionary chunk, i.e. it needs the high offset codes */
+                vr_fill(&r, x, n); if (dl > 64) { size_t const cl = V_MIN((size_t)(64 + vr_u(&r, 2000)), dl / 2); size_t const from = vr_u64(&r, dl - cl); size_t const at = n - cl - vr_u(&r, 5000) % (n - cl); memcpy(x + at, dict + from, cl); } break; } case 0: for (size_t i = 0; i < n; i++) x[i] = dl ? dict[(dl - 1) - ((n - 1 - i) % dl)] : 0; break;                 /* replays the dictionary tail */
             case 1: gen_data(&r, x, n, fam); if (dl > 16 && n > 16) memcpy(x + n / 3, dict + dl / 2, V_MIN(n / 3, dl / 2)); break;
             case 2: for (size_t i = 0; i < n; i++) x[i] = (uint8_t)(200 + vr_u(&r, 56)); break;                                                        /* high-byte alphabet */
             default: gen_data(&r, x, n, (int)vr_u(&r, DF_NB)); }
         size_t const cap = ZSTD_compressBound(n) + 64; uint8_t* dst = (uint8_t*)malloc(cap); uint8_t* out = (uint8_t*)malloc(n + 8);
-        int cm = (int)vr_u(&r, CM_NB); if (accidental && (cm == CM_USINGDICT)) cm = CM_LOAD; int const lvl = (int)vr_range(&r, -2, 19); int const attach = (int)vr_u(&r, 4); int const dds = (int)vr_u(&r, 3) == 0; int const noID = (int)vr_u(&r, 6) == 0;
+        int cm = (int)vr_u(&r, CM_NB); if (accidental && (cm == CM_USINGDICT)) cm = CM_LOAD; int const lvl = (istyle == 4 && vr_chance(&r, 1, 2)) ? (int)vr_range(&r, 1, 5) : (int)vr_range(&r, -2, 19); int const attach = (int)vr_u(&r, 4); int const dds = (int)vr_u(&r, 3) == 0; int const noID = (int)vr_u(&r, 6) == 0;
         ZSTD_CCtx* c = ZSTD_createCCtx(); size_t cs; ZSTD_CDict* cd2 = NULL; int prefix = 0;
         ZSTD_CCtx_setParameter(c, ZSTD_c_compressionLevel, lvl); ZSTD_CCtx_setParameter(c, ZSTD_c_forceAttachDict, attach); if (dds) ZSTD_CCtx_setParameter(c, ZSTD_c_enableDedicatedDictSearch, 1); if (noID) ZSTD_CCtx_setParameter(c, ZSTD_c_dictIDFlag, 0); ZSTD_CCtx_setParameter(c, ZSTD_c_checksumFlag, (int)vr_u(&r, 2));
         switch (cm) {
